@@ -85,6 +85,14 @@ func (r *Rand) Bool() bool { return r.Intn(2) == 0 }
 // Chance returns true with probability num/den.
 func (r *Rand) Chance(num, den int) bool { return r.Intn(den) < num }
 
+// Choose2 returns one of two ints.
+func (r *Rand) Choose2(a, b int) int {
+	if r.Bool() {
+		return a
+	}
+	return b
+}
+
 // Choose returns one of the given strings.
 func (r *Rand) Choose(xs ...string) string { return xs[r.Intn(len(xs))] }
 
